@@ -679,16 +679,24 @@ void load_sites(const pmc_spec* specs, int nspecs)
     g_spec_sites_matched.assign(nspecs, 0);
     for (int s = 0; s < nspecs; ++s)
     {
-        if (!specs[s].focus_sites || !*specs[s].focus_sites) continue;
-        regex_t re;
-        if (regcomp(&re, specs[s].focus_sites, REG_EXTENDED | REG_NOSUB) != 0)
+        bool have_sites = specs[s].focus_sites && *specs[s].focus_sites, have_plain = specs[s].focus_plain && *specs[s].focus_plain;
+        if (!have_sites && !have_plain) continue;
+        auto is_plain = [](const SiteRow& r) { return r.hook.compare(0, 13, "__tsan_atomic") != 0 && r.hook.compare(0, 6, "__tsan") == 0; };
+        regex_t re, rp;
+        if ((have_sites && regcomp(&re, specs[s].focus_sites, REG_EXTENDED | REG_NOSUB) != 0) || (have_plain && regcomp(&rp, specs[s].focus_plain, REG_EXTENDED | REG_NOSUB) != 0))
         {
             fprintf(stderr, "pmc: bad focus_sites regex for %s\n", specs[s].name);
             exit(2);
         }
         for (auto& r : g_sites)
-            if (regexec(&re, r.chain.c_str(), 0, nullptr, 0) == 0) g_spec_sites[s].push_back(r.ra);
-        regfree(&re);
+        {
+            // plain-access sites are opted in separately: an F-site regex that names a source file must not
+            // turn every load and store of that file into a scheduling point
+            if (is_plain(r)) { if (have_plain && regexec(&rp, r.chain.c_str(), 0, nullptr, 0) == 0) g_spec_sites[s].push_back(r.ra); }
+            else if (have_sites && regexec(&re, r.chain.c_str(), 0, nullptr, 0) == 0) g_spec_sites[s].push_back(r.ra);
+        }
+        if (have_sites) regfree(&re);
+        if (have_plain) regfree(&rp);
         unsigned mask = 0;
         const char* k = specs[s].focus_kinds;
         if (!k || !*k) mask = ~0u;
